@@ -321,7 +321,7 @@ fn run_history(set: usize, hist: &[usize]) -> Res {
 }
 
 pub fn run(ctx: &Ctx, rep: &mut Report) {
-    rep.rule = "SEQ: every history of 2..depth (quick 3, thorough 4..5) dump requests on one writer, each preceded by a step from {none, thread added, thread exited, app region rewritten, an aborted request, the writer re-configured (app memory / crash context / user mappings / principal mapping)}, under 7 option sets; after every dump a fresh identically configured writer dumps the same quiescent target and the normalised decodings are compared. nontrivial = histories with at least one target change".into();
+    rep.rule = "SEQ: every history of 2..depth (quick 3, thorough 4..5) dump requests on one writer, each preceded by a step from {none, thread added, thread exited, app region rewritten, an aborted request, the writer re-configured (app memory / crash context / user mappings / principal mapping / size limit), re-targeted, the target killed, a mapping shrunk / regrown / truncated}, under 11 option sets; after every dump a fresh identically configured writer dumps the same quiescent target and the normalised decodings are compared. nontrivial = histories with at least one target change".into();
     rep.assume("two dumps of an unchanged quiescent puppet decode to the same normalised content (timestamp, /proc/cpuinfo and /proc/<pid>/status streams masked); verified by the option set 'plain' with history [none, none]");
     if let Some(case) = &ctx.replay {
         let set = OPTSETS.iter().position(|s| Some(*s) == case.get("option_set").and_then(|v| v.as_str())).unwrap_or(0);
